@@ -3,6 +3,10 @@
 #[cfg(actix_net_verif)]
 mod bp;
 #[cfg(actix_net_verif)]
+mod c01;
+#[cfg(actix_net_verif)]
+mod c05;
+#[cfg(actix_net_verif)]
 mod engine;
 #[cfg(actix_net_verif)]
 mod monitor;
@@ -16,6 +20,119 @@ fn main() {
 }
 
 #[cfg(actix_net_verif)]
+pub enum Verdict {
+    Held,
+    Violated(Vec<monitor::Fail>),
+    Inconclusive(String),
+}
+
+/// Generic seeded scenario loop: `describe(seed)` gives (shape, replay json); `run(seed, None)` runs one scenario,
+/// `run(0, Some(report))` is called once at the end to publish the monitor's counters.
+#[cfg(actix_net_verif)]
+fn scenario_loop(
+    args: &vh_core::Args,
+    rep: &mut vh_core::Report,
+    n_quick: u64,
+    n_thorough: u64,
+    enum_total: u64,
+    describe: impl Fn(u64) -> (String, vh_core::Value),
+    mut run: impl FnMut(u64, Option<&mut vh_core::Report>) -> Verdict,
+) {
+    use vh_core::{fnv_str, Rng, Value};
+    let prop = args.prop.clone();
+    let one = |seed: u64, rep: &mut vh_core::Report, run: &mut dyn FnMut(u64, Option<&mut vh_core::Report>) -> Verdict| {
+        rep.evaluations += 1;
+        let (shape, mut rp) = describe(seed);
+        let mut out = run(seed, None);
+        let mut tries = 0;
+        while let Verdict::Inconclusive(_) = out {
+            tries += 1;
+            if tries > 2 {
+                break;
+            }
+            out = run(seed, None);
+        }
+        match out {
+            Verdict::Held => rep.nontrivial(fnv_str(&shape)),
+            Verdict::Violated(fails) => {
+                let mut kept = 0;
+                for f in fails {
+                    if f.sig.starts_with(&prop) {
+                        kept += 1;
+                        rp["prop"] = Value::String(prop.clone());
+                        rp["case_seed"] = Value::from(seed);
+                        rep.violation(f.sig, format!("{} [{}]", f.desc, shape), rp.clone());
+                    } else {
+                        rep.count("other_property_violations_seen");
+                    }
+                }
+                if kept == 0 {
+                    rep.nontrivial(fnv_str(&shape));
+                }
+            }
+            Verdict::Inconclusive(why) => rep.inconclusive(&why),
+        }
+    };
+    if let Some(p) = &args.replay {
+        let v: Value = serde_json::from_str(&std::fs::read_to_string(p).expect("replay file")).unwrap();
+        let seed = v["case_seed"].as_u64().expect("case_seed");
+        for _ in 0..5 {
+            one(seed, rep, &mut run);
+        }
+        rep.note(format!("replay: {} violation(s) in 5 runs", rep.violations_total));
+        let _ = run(0, Some(rep));
+        rep.rule = "replay of one recorded scenario (5 runs)".into();
+        return;
+    }
+    let n = match args.tier.as_str() {
+        "thorough" => n_thorough,
+        "miri" => 0,
+        _ => n_quick,
+    };
+    let n = args.extra_u64("n", n);
+    let mut rng = Rng::new(args.seed ^ vh_core::fnv_str(&prop)).fork(args.shard);
+    // enumerated part of the scenario space (seeds below enum_total are indices into it):
+    // thorough walks all of it, quick samples it for half of its budget
+    let enum_n = if enum_total == 0 { 0 } else if args.thorough() { enum_total } else { (n / 2).min(enum_total) };
+    let mut enumerated_done = 0u64;
+    for i in 0..enum_n + n {
+        let r = rng.next_u64();
+        let seed = if i < enum_n {
+            if args.thorough() {
+                i
+            } else {
+                r % enum_total
+            }
+        } else {
+            r | (1 << 40)
+        };
+        if !args.mine(i) {
+            continue;
+        }
+        if i < enum_n {
+            enumerated_done += 1;
+        }
+        if rep.violations_total >= 12 {
+            rep.note("stopped early after 12 violations");
+            break;
+        }
+        one(seed, rep, &mut run);
+        if i < 3 * args.nshards {
+            let (_, rp) = describe(seed);
+            rep.sample(|| rp);
+        }
+    }
+    if enum_total > 0 {
+        rep.add("enumerated_scenarios_run", enumerated_done);
+        rep.max("max_enumerated_space_size", enum_total);
+        if args.thorough() && rep.violations_total < 12 {
+            rep.exhaustive = true;
+        }
+    }
+    let _ = run(0, Some(rep));
+}
+
+#[cfg(actix_net_verif)]
 fn main() {
     use vh_core::{fnv_str, Args, Report, Rng, Value};
     vh_core::install_quiet_panic_hook();
@@ -25,6 +142,9 @@ fn main() {
     }
     let mut rep = Report::new(&args);
     let prop = args.prop.clone();
+    if args.tier != "miri" {
+        engine::warm_up();
+    }
     match prop.as_str() {
         "C02" | "C03" | "C04" => {
             let mut seen = bp::Seen::default();
@@ -137,6 +257,87 @@ fn main() {
             rep.add("obs_boundary_concurrency_checks", seen.boundary_concurrency_checks);
             rep.add("obs_stress_phases", seen.stress_phases);
         }
+        "C01" => scenario_loop(
+            &args,
+            &mut rep,
+            96,
+            1600,
+            0,
+            |seed| {
+                let s = c01::Scn::from_seed(seed);
+                (s.shape(), s.to_json())
+            },
+            {
+                let mut seen = c01::Seen::default();
+                move |seed, fin: Option<&mut Report>| -> Verdict {
+                    if let Some(rep) = fin {
+                        rep.add("obs_connections", seen.connections);
+                        rep.add("obs_served", seen.served);
+                        rep.add("obs_unserved_closed_at_shutdown", seen.unserved_closed_at_shutdown);
+                        rep.add("obs_drained_at_shutdown", seen.drained_at_shutdown);
+                        rep.add("obs_queued_when_stop_issued", seen.queued_when_stop_issued);
+                        rep.add("obs_routing_checks", seen.routing_checks);
+                        rep.add("obs_quiescent_points", seen.quiescent_points);
+                        rep.add("obs_fd_conservation_checks", seen.fd_conservation_checks);
+                        rep.add("obs_multi_listener_scenarios", seen.multi_listener_scenarios);
+                        rep.add("obs_aborted_by_client", seen.aborted_by_client);
+                        rep.add("obs_failpoint_delays_fired", seen.failpoint_hits);
+                        rep.add("obs_pause_resume_cycles", seen.pause_resume_cycles);
+                        rep.rule = "real server, workers 1..3 x limit 1..3 x listeners {TCP, UDS, TCP+UDS, TCP+TCP} x {Actix, Tokio}: 2..8 client threads each making 2..11 connections (hold / finish-at-once / abort, random early releases), optional pause+resume in the middle, failpoints on both sides of the worker queue; \
+                                    then a barrier-reached quiescent point (nothing accepted is undispatched, no open client closed unserved, unserved clients are explained by backlog + capacity), a burst queued behind the limit, stop (graceful or forced) and join; \
+                                    oracles over the ordered log and the client sockets: every cid identified at most once, by an instance of the listener it connected to; accepted = dispatched + dropped; after shutdown every client sees its socket closed; no call after a graceful stop resolved; open-fd count returns to its value before the server started. \
+                                    Distinct = distinct scenario shape; non-trivial = scenario completed.".into();
+                        return Verdict::Held;
+                    }
+                    match c01::run_scenario(&c01::Scn::from_seed(seed), &mut seen) {
+                        c01::Outcome::Held => Verdict::Held,
+                        c01::Outcome::Violated(f) => Verdict::Violated(f),
+                        c01::Outcome::Inconclusive(w) => Verdict::Inconclusive(w),
+                    }
+                }
+            },
+        ),
+        "C05" => scenario_loop(
+            &args,
+            &mut rep,
+            160,
+            3000,
+            c05::ENUM_TOTAL,
+            |seed| {
+                let s = c05::Scn::from_seed(seed);
+                (s.shape(), s.to_json())
+            },
+            {
+                let mut seen = c05::Seen::default();
+                move |seed, fin: Option<&mut Report>| -> Verdict {
+                    if let Some(rep) = fin {
+                        rep.add("obs_ops", seen.ops);
+                        rep.add("obs_quiescent_points", seen.quiescent_points);
+                        rep.add("obs_effective_pauses", seen.pauses_effective);
+                        rep.add("obs_effective_resumes", seen.resumes_effective);
+                        rep.add("obs_idempotent_commands", seen.idempotent_commands);
+                        rep.add("obs_nontransient_errors_consumed", seen.nontransient_errors_consumed);
+                        rep.add("obs_per_connection_errors_consumed", seen.per_connection_errors_consumed);
+                        rep.add("obs_backoffs_observed", seen.backoffs_observed);
+                        rep.add("obs_backoffs_expired_and_rearmed", seen.backoffs_expired_and_rearmed);
+                        rep.add("obs_connects_while_paused", seen.connects_while_paused);
+                        rep.add("obs_served_after_resume_or_backoff", seen.served_after_resume_or_backoff);
+                        rep.add("obs_uds_connects", seen.uds_connects);
+                        rep.add("obs_tcp_connects", seen.tcp_connects);
+                        rep.add("obs_errors_injected_while_paused", seen.errors_while_paused);
+                        rep.rule = "command / fault sequences of length 1..5 over {pause, resume, connect(l), inject accept error(l, EMFILE|ENFILE|ENOMEM|ECONNABORTED|ECONNRESET|ECONNREFUSED) + connect, wait past the back-off} on {TCP, UDS, TCP+UDS} listeners x {Actix, Tokio} with failpoints at the pause/resume acknowledgement and in the accept loop, followed by an epilogue (resume, wait); \
+                                    after every step a no-op command ping brings the accept thread to an idle snapshot and the rules are evaluated on the ordered hook log: pause flag equals the command history (idempotence), no Dispatch between a processed pause and the next resume, a listener that is neither paused nor backing off is registered, a paused one is not, \
+                                    per-connection errors cause no deregistration, resource errors do, a back-off is over after 650 ms, every connect() to a running server's listener succeeds (UDS path still present), and every client of an armed listener gets served. Distinct = distinct (listeners, runtime, op sequence); non-trivial = scenario completed.".into();
+                        return Verdict::Held;
+                    }
+                    match c05::run_scenario(&c05::Scn::from_seed(seed), &mut seen) {
+                        c05::Outcome::Held => Verdict::Held,
+                        c05::Outcome::Violated(f) => Verdict::Violated(f),
+                        c05::Outcome::Inconclusive(w) => Verdict::Inconclusive(w),
+                    }
+                }
+            },
+        ),
         p => {
             eprintln!("vh-server: unknown property {p}");
             std::process::exit(2);
